@@ -7,6 +7,7 @@ de-duplicated on (cookie jars, cached profiles, server cookie flags).
 import datetime
 import os
 import shutil
+import urllib.error
 import urllib.parse
 import warnings
 
@@ -24,6 +25,11 @@ CALLS += [("stmtend", "normal"), ("ccstmt", "normal")]
 CALLS += [("emptystmt", "normal")]
 # "timeout": a normal call during which the server accepts the request of that kind and then never answers
 CALLS += [(c, "timeout") for c in ("profile", "statements", "accounts", "tax")]
+# "redirect307" / "redirect308": a normal call during which the server answers the request of that kind with a temporary /
+# permanent redirect to another host.  urllib does not re-send a POST on 307 / 308 (the call fails with HTTPError): the
+# request - credentials and all - must not be sent a second time, to a URL neither configured nor advertised
+CALLS += [(c, m) for c in ("profile", "statements", "tax") for m in ("redirect307", "redirect308")]
+ELSEWHERE = "http://ofx.elsewhere.example/relocated/Srv.dll"
 WIREKIND = {"stmtend": "statements", "ccstmt": "statements", "emptystmt": "statements"}
 BANK_ONLY = "other-path-bank-only"
 
@@ -95,6 +101,13 @@ class System:
                 import socket
 
                 raise socket.timeout("timed out")
+        if self.redirect is not None and ex.url != ELSEWHERE:
+            try:
+                kind = F.read_request(ex.body)["kind"]
+            except Exception:
+                kind = None
+            if kind == self.redirect[0]:
+                return self.redirect[1], [("Location", ELSEWHERE), ("Content-Length", "0")], b""
         if self.cookiepolicy == "every" or (self.cookiepolicy == "first" and flag not in self.first_sent):
             cookies = [f"SID={ua}.{host.split('.')[0]}.{host.split('.')[1]}; Path=/", f"PREF=p-{ua}; Path=/"]
             self.first_sent.add(flag)
@@ -134,6 +147,7 @@ class System:
         self.moves = {}
         self.last_advertised = None
         self.timeout_kind = None
+        self.redirect = None
         clients = {}
         cfgs = {}
         for who in ("A", "B"):
@@ -153,6 +167,7 @@ class System:
             elif mode == "skip_profile":
                 kw["skip_profile"] = True
             self.timeout_kind = WIREKIND.get(call, call) if mode == "timeout" else None
+            self.redirect = (WIREKIND.get(call, call), int(mode[-3:])) if mode.startswith("redirect") else None
             try:
                 with warnings.catch_warnings():
                     warnings.simplefilter("ignore")
@@ -174,6 +189,7 @@ class System:
             except Exception as e:
                 ret, err = None, e
             self.timeout_kind = None
+            self.redirect = None
             if last:
                 fails = self.check_event(history, who, call, mode, cfg, cfgs, ret, err, self.net.log[n0:], expected_cookies_before, AUTH_PLACEHOLDER)
         key = self.key(clients)
@@ -201,8 +217,11 @@ class System:
         if err is not None and mode == "timeout" and isinstance(err, OSError) and exchanges and exchanges[-1].error:
             # the server never answered: the call fails - having sent the request once
             timed_out = True
+        elif err is not None and mode.startswith("redirect") and isinstance(err, urllib.error.HTTPError) and err.code == int(mode[-3:]) and exchanges and exchanges[-1].status == err.code:
+            # the redirect was not followed: the call fails - having sent the request once
+            timed_out = True
         elif err is not None:
-            if self.advertise == "split" and mode in ("normal", "timeout") and call != "profile":
+            if self.advertise == "split" and mode in ("normal", "timeout", "redirect307", "redirect308") and call != "profile":
                 # the profile advertises different URLs per service: refusing to send is acceptable, as long as
                 # nothing carrying the credentials left the client
                 split_refusal = True
